@@ -514,6 +514,14 @@ func (n *Node) AggregateCommit(h uint32, kind string, signers []int) *blockchain
 		hdr.Init()
 	}
 	cert := certificate.NewCertificateFromBlock(hdr)
+	switch kind {
+	case "wrong-vhash":
+		cert.ValidatorsHash = crypto.Hash(append([]byte("other validators"), cert.ValidatorsHash...))
+	case "wrong-stateroot":
+		cert.StateRoot = crypto.Hash(append([]byte("other state"), cert.StateRoot...))
+	case "wrong-timestamp":
+		cert.Timestamp++
+	}
 	// validator keys of the parameter set at height h, ascending by BLS key (the order verification uses)
 	p := n.ParamsAt(h)
 	type kv struct {
@@ -593,6 +601,9 @@ func (n *Node) Build(c *Cand) *blockchain.Block {
 		case c.Payload == "toolarge" && i == 0:
 			// two transactions whose total size exceeds MaxTransactionsLength (each params <= 14 KiB)
 			txs = append(txs, toyTx(uint64(c.H)*10, "ok", int(n.Cfg.MaxTxs)/2+200), toyTx(uint64(c.H)*10+1, "ok", int(n.Cfg.MaxTxs)/2+200))
+		case c.Payload == "big":
+			// a valid block with a payload of megabytes (needs a node configured with a large MaxTransactionsLength)
+			txs = append(txs, toyTx(uint64(c.H)*1000+uint64(i), "ok", 14000))
 		default:
 			txs = append(txs, toyTx(uint64(c.H)*10+uint64(i), "ok", 10))
 		}
